@@ -277,7 +277,7 @@ def global_state(repo, res):
     _global_state(repo, res)
     from ..registry import anchor_props
 
-    kernel_props = {f"C{i:02d}" for i in range(1, 12)}
+    kernel_props = {f"C{i:02d}" for i in range(1, 12)} | {"C18", "C20"}  # (numba kernels and the command line run the same stages, all forms of a file in one process)
     for f_ in res.findings:
         mod_ = f_.key.split(":")[0]
         props_ = {"C12"} | anchor_props(mod_)
@@ -315,6 +315,11 @@ def _global_state(repo, res):
             if isinstance(val, (ast.Dict, ast.List, ast.Set, ast.ListComp, ast.DictComp, ast.SetComp)) or (
                 isinstance(val, ast.Call) and (call_name(val) or "").split(".")[-1] in STATEFUL_CTORS):
                 mutable_globals[name] = val
+        for name, vals in m.cond_assigns.items():
+            for val in vals:
+                if name not in mutable_globals and (isinstance(val, (ast.Dict, ast.List, ast.Set, ast.ListComp, ast.DictComp, ast.SetComp)) or (
+                        isinstance(val, ast.Call) and (call_name(val) or "").split(".")[-1] in STATEFUL_CTORS)):
+                    mutable_globals[name] = val
         for g in mutable_globals:
             res.ob(f"{m.name}:global:{g}")
         for f in m.funcs.values():
@@ -354,6 +359,9 @@ def _global_state(repo, res):
                             tgt = is_glob(t.value, n)
                         if isinstance(t, ast.Name) and t.id in declared_global:
                             tgt = t.id
+                        # `alias += more`: in place for lists, sets and dicts - the module-level object grows
+                        if isinstance(n, ast.AugAssign) and isinstance(t, ast.Name) and is_glob(t, n):
+                            tgt = is_glob(t, n)
                 if isinstance(n, ast.Call) and isinstance(n.func, ast.Attribute) and n.func.attr in MUTATING and is_glob(n.func.value, n):
                     tgt = is_glob(n.func.value, n)
                 if isinstance(n, ast.Call) and call_name(n) == "next" and n.args and is_glob(n.args[0], n):
@@ -429,6 +437,366 @@ def _global_state(repo, res):
                         bad = True
                     if bad:
                         res.fail(key, f"mutable default argument `{arg.arg}` of {f.key} is mutated: the change persists across calls", m.line(n))
+
+
+# ---- the options dictionary is shared by every stage, integral and form of a request (and by all files of one command line): read-only ------------
+
+def _callee_candidates(repo, m, call):
+    """repository functions a call may denote (by imported name / attribute name; at most a handful)"""
+    name = call_name(call) or ""
+    last = name.split(".")[-1]
+    if not last:
+        return []
+    head = name.split(".")[0]
+    tgt = m.imports.get(head, "")
+    out = []
+    if "." not in name and last in m.funcs:
+        return [m.funcs[last]]
+    if "." not in name and tgt and "." in tgt:
+        modname, fn = tgt.rsplit(".", 1)
+        if modname in repo.modules and fn in repo.modules[modname].funcs:
+            return [repo.modules[modname].funcs[fn]]
+    for mod in repo.modules.values():
+        for f in mod.funcs.values():
+            if f.node.name == last and (f.cls is None or name.startswith("self.") or "." in name):
+                out.append(f)
+    return out if len(out) <= 4 else []
+
+
+def _bind_args(f, call):
+    """callee parameter name -> argument expression"""
+    a = f.node.args
+    params = [x.arg for x in a.posonlyargs + a.args]
+    if f.cls is not None and params and params[0] in ("self", "cls"):
+        params = params[1:]
+    out = {}
+    for prm, arg in zip(params, call.args):
+        if not isinstance(arg, ast.Starred):
+            out[prm] = arg
+    names = set(params) | {x.arg for x in a.kwonlyargs}
+    for kw in call.keywords:
+        if kw.arg in names:
+            out[kw.arg] = kw.value
+    return out
+
+
+@rule(
+    "OPTIONS-READONLY",
+    ["C12", "C10", "C20", "C13"],
+    "the options dictionary of a request - the result of get_options and every parameter it is handed on to (propagated over call bindings to a fixpoint, "
+    "aliases by plain assignment included) - is never stored into, deleted from or updated by a stage: one dictionary serves every integral and form "
+    "of the request, is printed into the header and, on the command line, is reused for every file",
+    min_instances=10,
+)
+def options_readonly(repo, res):
+    holders: dict[str, set[str]] = {}
+    funcs = [(m, f) for m in repo.modules.values() for f in m.funcs.values()]
+
+    def add(f, name):
+        s_ = holders.setdefault(f.key, set())
+        if name in s_:
+            return False
+        s_.add(name)
+        return True
+
+    # seeds: what get_options returns; parameters called `options` of the public entry points (the JIT passes the merged dictionary on under that name)
+    for m, f in funcs:
+        if m.name == "ffcx.options":
+            continue
+        a = f.node.args
+        for x in a.posonlyargs + a.args + a.kwonlyargs:
+            if x.arg == "options":
+                add(f, x.arg)
+        for n in walk_no_nested(f.node):
+            if isinstance(n, ast.Assign) and isinstance(n.value, ast.Call) and (call_name(n.value) or "").split(".")[-1] == "get_options":
+                for t in n.targets:
+                    if isinstance(t, ast.Name):
+                        add(f, t.id)
+    changed = True
+    rounds = 0
+    while changed and rounds < 20:
+        changed = False
+        rounds += 1
+        for m, f in funcs:
+            held = holders.get(f.key, set())
+            if not held:
+                continue
+            for n in walk_no_nested(f.node):
+                # aliases
+                if isinstance(n, ast.Assign) and isinstance(n.value, ast.Name) and n.value.id in held:
+                    for t in n.targets:
+                        if isinstance(t, ast.Name):
+                            changed |= add(f, t.id)
+                if isinstance(n, ast.Call):
+                    for g in _callee_candidates(repo, m, n):
+                        if g.module.name == "ffcx.options":
+                            continue
+                        for prm, arg in _bind_args(g, n).items():
+                            if isinstance(arg, ast.Name) and arg.id in held:
+                                changed |= add(g, prm)
+    for m, f in funcs:
+        held = holders.get(f.key, set())
+        if not held:
+            continue
+        key = f"{f.key}:options-read-only"
+        res.ob(key)
+        res.functions.add(f.key)
+        for n in walk_no_nested(f.node):
+            bad = None
+            if isinstance(n, (ast.Assign, ast.AugAssign, ast.AnnAssign)):
+                ts = n.targets if isinstance(n, ast.Assign) else [n.target]
+                for t in ts:
+                    if isinstance(t, ast.Subscript) and isinstance(t.value, ast.Name) and t.value.id in held:
+                        bad = f"stores into `{t.value.id}[{ast.unparse(t.slice)}]`"
+            if isinstance(n, ast.Delete):
+                for t in n.targets:
+                    if isinstance(t, ast.Subscript) and isinstance(t.value, ast.Name) and t.value.id in held:
+                        bad = f"deletes `{ast.unparse(t)}`"
+            if isinstance(n, ast.Call) and isinstance(n.func, ast.Attribute) and n.func.attr in MUTATING and isinstance(n.func.value, ast.Name) \
+                    and n.func.value.id in held:
+                bad = f"calls `{n.func.value.id}.{n.func.attr}(...)`"
+            if bad:
+                res.fail(key, f"{f.key} {bad}: `{sorted(held)[0] if len(held) == 1 else '/'.join(sorted(held))}` is the options dictionary of the request (from get_options, handed on "
+                         "through the stages), shared by every integral and form compiled with it, printed into the generated header and reused by the command line for "
+                         "the next file - the change outlives the integral it was made for, so what is generated depends on what was compiled before", m.line(n))
+
+
+# ---- objects handed out by a memoised function live as long as the process: nobody may change them in place --------------------------------------
+
+VIEW_METHODS = {"reshape", "view", "ravel", "squeeze", "transpose", "swapaxes", "astype_view", "get", "values", "items", "keys", "__getitem__", "flat"}
+VIEW_FUNCS = {"np.asarray", "numpy.asarray", "np.ascontiguousarray", "np.asanyarray", "np.reshape", "np.ravel", "np.squeeze", "np.transpose", "np.atleast_1d",
+              "np.atleast_2d", "np.broadcast_to", "list", "tuple", "dict", "iter", "reversed", "zip", "enumerate", "typing.cast", "cast"}
+INPLACE_METHODS = MUTATING | {"fill", "put", "itemset", "resize", "setfield", "partition", "byteswap", "setflags"}
+INPLACE_FUNCS = {"np.copyto": 0, "np.put": 0, "np.place": 0, "np.putmask": 0, "np.fill_diagonal": 0, "random.shuffle": 0, "np.random.shuffle": 0}
+
+
+ELEMENT_METHODS = {"get", "values", "items", "pop", "popitem", "__getitem__", "setdefault"}
+COPY_CTORS = {"list", "tuple", "dict", "set", "sorted", "reversed", "iter", "zip", "enumerate", "frozenset"}
+GROW_METHODS = {"append", "extend", "insert", "add", "setdefault", "update", "appendleft"}
+
+
+@rule(
+    "CACHE-ALIAS",
+    ["C12"] + [f"C{i:02d}" for i in range(1, 12)] + ["C18", "C20"],
+    "what a memoised function (functools.cache / lru_cache) returns is shared by every later caller of the process: the value - and every view or element "
+    "of it, followed through assignments, containers, returns and call bindings to a fixpoint - is never changed in place (subscript store, augmented "
+    "assignment, mutating method, NumPy in-place function, out=); containers that merely hold such objects may be rearranged freely",
+    min_instances=1,
+)
+def cache_alias(repo, res):
+    funcs = [(m, f) for m in repo.modules.values() for f in m.funcs.values()]
+    memo = {}
+    for m, f in funcs:
+        decos = [ast.unparse(d) for d in f.node.decorator_list]
+        if any(re.search(r"\b(lru_cache|cache)\b", d) and "cached_property" not in d for d in decos):
+            memo[f.key] = f
+            res.ob(f"{f.key}:memoised-result-never-mutated")
+            res.functions.add(f.key)
+    res.ob("package:memoised-functions-enumerated")
+    # per function: local name -> (depth, source): depth 0 = may BE (a view / a part of) a cached object; depth k > 0 = a fresh container with k levels of nesting
+    # above such objects (a dict holding the array: 1, a list of such dicts: 2).  Only depth 0 may not be changed in place.
+    kinds: dict[str, dict[str, tuple[int, str]]] = {}
+    returns: dict[str, tuple[int, str]] = {}
+
+    def setk(fkey, name, depth, src):
+        d = kinds.setdefault(fkey, {})
+        old = d.get(name)
+        if old is not None and old[0] <= depth:
+            return False
+        d[name] = (depth, src)
+        return True
+
+    def best(ks):
+        ks = [k for k in ks if k]
+        return min(ks, key=lambda k: k[0]) if ks else None
+
+    def kind(m, f, e):
+        """(depth, source) or None for an expression"""
+        loc = kinds.get(f.key, {})
+        if isinstance(e, ast.Name):
+            return loc.get(e.id)
+        if isinstance(e, (ast.NamedExpr, ast.Starred)):
+            return kind(m, f, e.value)
+        if isinstance(e, ast.IfExp):
+            return best([kind(m, f, e.body), kind(m, f, e.orelse)])
+        if isinstance(e, ast.Subscript):
+            k = kind(m, f, e.value)
+            return (max(k[0] - 1, 0), k[1]) if k else None      # a view of an array / an element of a holder
+        if isinstance(e, ast.Attribute):
+            k = kind(m, f, e.value)
+            return k if k and k[0] == 0 and e.attr in ("T", "real", "imag", "flat", "base") else None
+        if isinstance(e, (ast.Tuple, ast.List, ast.Set)):
+            k = best([kind(m, f, x) for x in e.elts])
+            return (k[0] + 1, k[1]) if k else None
+        if isinstance(e, ast.Dict):
+            k = best([kind(m, f, x) for x in e.values if x is not None])
+            return (k[0] + 1, k[1]) if k else None
+        if isinstance(e, (ast.ListComp, ast.SetComp, ast.GeneratorExp, ast.DictComp)):
+            # the element expression, with the loop variables bound to elements of what is iterated over
+            saved = dict(loc)
+            try:
+                for g in e.generators:
+                    k = kind(m, f, g.iter)
+                    if k:
+                        for nm in ast.walk(g.target):
+                            if isinstance(nm, ast.Name):
+                                kinds.setdefault(f.key, {})[nm.id] = (max(k[0] - 1, 0), k[1])
+                elt = e.value if isinstance(e, ast.DictComp) else e.elt
+                k = kind(m, f, elt)
+            finally:
+                kinds[f.key] = saved
+            return (k[0] + 1, k[1]) if k else None
+        if isinstance(e, ast.Call):
+            name = call_name(e) or ""
+            for g in _callee_candidates(repo, m, e):
+                if g.key in memo:
+                    return (0, g.key)
+                if g.key in returns:
+                    return returns[g.key]
+            if isinstance(e.func, ast.Attribute):
+                k = kind(m, f, e.func.value)
+                if k:
+                    if e.func.attr in VIEW_METHODS and k[0] == 0:
+                        return k
+                    if e.func.attr in ("get", "pop", "__getitem__", "setdefault"):
+                        return (max(k[0] - 1, 0), k[1])
+                    if e.func.attr in ("values", "items", "keys"):
+                        return k
+                    if e.func.attr == "copy":
+                        return k if k[0] > 0 else None   # (a copy of an array is new; a copy of a holder still holds the same objects)
+            if name in VIEW_FUNCS - COPY_CTORS and e.args:
+                return kind(m, f, e.args[0])
+            if name in COPY_CTORS and e.args:
+                k = best([kind(m, f, a_) for a_ in e.args])
+                return (max(k[0], 1), k[1]) if k else None
+        return None
+
+    changed, rounds = True, 0
+    while changed and rounds < 25:
+        changed = False
+        rounds += 1
+        for m, f in funcs:
+            for n in walk_no_nested(f.node):
+                if isinstance(n, (ast.Assign, ast.AnnAssign)) and getattr(n, "value", None) is not None:
+                    k = kind(m, f, n.value)
+                    if k:
+                        for t in (n.targets if isinstance(n, ast.Assign) else [n.target]):
+                            if isinstance(t, ast.Name):
+                                changed |= setk(f.key, t.id, k[0], k[1])
+                            elif isinstance(t, (ast.Tuple, ast.List)):
+                                for nm in ast.walk(t):   # unpacking: the parts of a cached tuple / the elements of a holder
+                                    if isinstance(nm, ast.Name):
+                                        changed |= setk(f.key, nm.id, max(k[0] - 1, 0), k[1])
+                            elif isinstance(t, ast.Subscript) and isinstance(t.value, ast.Name):
+                                kt = kind(m, f, t.value)
+                                if kt is None or kt[0] > k[0] + 1:
+                                    changed |= setk(f.key, t.value.id, k[0] + 1, k[1])   # a local container now holds it
+                if isinstance(n, ast.For):
+                    k = kind(m, f, n.iter)
+                    if k:
+                        for nm in ast.walk(n.target):
+                            if isinstance(nm, ast.Name):
+                                changed |= setk(f.key, nm.id, max(k[0] - 1, 0), k[1])
+                if isinstance(n, ast.Call) and isinstance(n.func, ast.Attribute) and n.func.attr in GROW_METHODS and isinstance(n.func.value, ast.Name):
+                    kt = kind(m, f, n.func.value)
+                    for a_ in list(n.args) + [kw.value for kw in n.keywords]:
+                        k = kind(m, f, a_)
+                        if k:
+                            d_ = k[0] + (0 if n.func.attr in ("extend", "update") else 1)
+                            d_ = max(d_, 1)
+                            if kt is None or kt[0] > d_:
+                                changed |= setk(f.key, n.func.value.id, d_, k[1])
+                if isinstance(n, ast.Return) and n.value is not None and f.key not in memo:
+                    k = kind(m, f, n.value)
+                    if k and (f.key not in returns or returns[f.key][0] > k[0]):
+                        returns[f.key] = k
+                        changed = True
+                if isinstance(n, ast.Call):
+                    for g in _callee_candidates(repo, m, n):
+                        if g.key in memo:
+                            continue
+                        for prm, arg in _bind_args(g, n).items():
+                            k = kind(m, f, arg)
+                            if k:
+                                changed |= setk(g.key, prm, k[0], k[1])
+    for m, f in funcs:
+        if not kinds.get(f.key):
+            continue
+        res.functions.add(f.key)
+
+        rd_cache = {}
+
+        def root_name(e):
+            while isinstance(e, (ast.Subscript, ast.Attribute, ast.Starred)):
+                e = e.value
+            if isinstance(e, ast.Call) and isinstance(e.func, ast.Attribute):
+                return root_name(e.func.value)
+            return e.id if isinstance(e, ast.Name) else None
+
+        def reaches(stmt, name):
+            """does a definition of `name` that makes it an alias reach `stmt`? (branches that bind the name to a fresh object do not count)"""
+            from ..cfg import CFG, reaching_definitions
+            if "cfg" not in rd_cache:
+                try:
+                    rd_cache["cfg"] = CFG(f.node)
+                    rd_cache["IN"], _ = reaching_definitions(rd_cache["cfg"], set(f.params))
+                except Exception:
+                    rd_cache["cfg"] = None
+            cfg_ = rd_cache["cfg"]
+            if cfg_ is None:
+                return True
+            byid = {nd.id: nd for nd in cfg_.nodes}
+            nodes_ = cfg_.stmt_nodes_containing(stmt)
+            if not nodes_:
+                return True
+            for cn in nodes_:
+                for d in rd_cache["IN"].get(cn.id, {}).get(name, ()):
+                    if d == -1:
+                        return True   # a parameter
+                    a_ = byid[d].ast
+                    if isinstance(a_, (ast.Assign, ast.AnnAssign)) and getattr(a_, "value", None) is not None:
+                        tg = a_.targets if isinstance(a_, ast.Assign) else [a_.target]
+                        if any(isinstance(t_, ast.Name) and t_.id == name for t_ in tg):
+                            k_ = kind(m, f, a_.value)
+                            if k_ and k_[0] == 0:
+                                return True
+                            continue
+                    return True   # loop targets, unpacking, with-items ...: not resolved further
+            return False
+
+        def is_alias(e, stmt=None):
+            k = kind(m, f, e)
+            if not (k and k[0] == 0):
+                return None
+            rn = root_name(e)
+            if stmt is not None and rn is not None and isinstance(e, ast.Name) and not reaches(stmt, rn):
+                return None
+            return k
+        for n in walk_no_nested(f.node):
+            bad = None
+            if isinstance(n, (ast.Assign, ast.AugAssign)):
+                for t in (n.targets if isinstance(n, ast.Assign) else [n.target]):
+                    if isinstance(t, ast.Subscript) and is_alias(t.value, n):
+                        bad = (f"stores into `{ast.unparse(t)[:50]}`", is_alias(t.value, n)[1])
+                    if isinstance(n, ast.AugAssign) and isinstance(t, ast.Name) and is_alias(t, n):
+                        bad = (f"updates `{t.id}` in place (`{ast.unparse(n)[:50]}`)", is_alias(t, n)[1])
+            if isinstance(n, ast.Delete):
+                for t in n.targets:
+                    if isinstance(t, ast.Subscript) and is_alias(t.value):
+                        bad = (f"deletes `{ast.unparse(t)[:50]}`", is_alias(t.value)[1])
+            if isinstance(n, ast.Call) and isinstance(n.func, ast.Attribute) and n.func.attr in INPLACE_METHODS and is_alias(n.func.value):
+                bad = (f"calls `{ast.unparse(n.func)[:50]}(...)`", is_alias(n.func.value)[1])
+            if isinstance(n, ast.Call) and (call_name(n) or "") in INPLACE_FUNCS and n.args and is_alias(n.args[INPLACE_FUNCS[call_name(n)]]):
+                bad = (f"calls `{call_name(n)}` on it", is_alias(n.args[INPLACE_FUNCS[call_name(n)]])[1])
+            if isinstance(n, ast.Call):
+                for kw in n.keywords:
+                    if kw.arg == "out" and is_alias(kw.value):
+                        bad = (f"writes into it through `out=` of `{call_name(n)}`", is_alias(kw.value)[1])
+            if bad:
+                what, src = bad
+                res.fail(f"{src}:memoised-result-never-mutated", f"{f.key} {what}: the object may be (a view or a part of) what the memoised function {src} returned, "
+                         "which every later caller of the process gets again - the change, made with this request's data or tolerances, is what the next compilation "
+                         "starts from", m.line(n))
 
 
 # ---- C09: the scalar type selects arithmetic and literals, never the numbers that are tabulated ------------------------
